@@ -234,13 +234,25 @@ def judge_text(kind: str, text: str, k: int):
         _state['dsession'] = None
     if r2[0] in ('raw', 'timeout'):
         _state['dsession'] = None
+    r2b = None
+    if parsable and r2[0] in ('ok', 'error') and _state.get('dsession') is not None:
+        # history: the unchanged file is processed again against the cache files the first run left behind
+        r2b = classify(lambda: pipeline(dsess, f'{pkg}.m{k}'))
+        try:
+            dsess.unload(f'{pkg}.m{k}')
+        except BaseException:  # noqa
+            _state['dsession'] = None
+        if r2b[0] in ('raw', 'timeout'):
+            _state['dsession'] = None
     try:
         os.remove(fp)
     except OSError:
         pass
     shutil.rmtree(os.path.join(wd, '.cache', 'tranp', pkg), ignore_errors=True)
-    for path, r in (('memory', r1), ('disk', r2)):
-        outcomes.append(r[0] if r[0] != 'error' else f'error:{r[1]}')
+    parsable_by['disk-second-run'] = parsable_by['disk']
+    for path, r in (('memory', r1), ('disk', r2)) + ((('disk-second-run', r2b),) if r2b else ()):
+        if path != 'disk-second-run':
+            outcomes.append(r[0] if r[0] != 'error' else f'error:{r[1]}')
         rep = {'kind': kind, 'text': text}
         if r[0] == 'raw':
             viol.append((['raw-exception', r[1], r[2], path], f'{path}: {r[1]} escaped from {r[2]}: {r[3]}  input {text!r}', rep))
@@ -273,12 +285,71 @@ def judge_text(kind: str, text: str, k: int):
     return viol, tuple(outcomes), parsable
 
 
+def judge_bytes(kind: str, text: str, k: int):
+    """A module file whose bytes are not valid UTF-8 (text = the bytes, latin-1 decoded): as target, and imported by an in-memory main."""
+    from mc.tranp.session import Session, ensure_workdir
+    from rogw.tranp.view.error_render import ErrorRender
+    viol = []
+    wd = ensure_workdir()
+    pkg = f'c07w{os.getpid()}'
+    os.makedirs(os.path.join(wd, pkg), exist_ok=True)
+    fp = os.path.join(wd, pkg, f'b{k}.py')
+    with open(fp, 'wb') as f:
+        f.write(text.encode('latin-1'))
+    dsess = _state.get('dsession')
+    if dsess is None:
+        dsess = _state['dsession'] = Session({})
+        dsess.warm()
+    r_disk = classify(lambda: pipeline(dsess, f'{pkg}.b{k}'))
+    try:
+        dsess.unload(f'{pkg}.b{k}')
+    except BaseException:  # noqa
+        _state['dsession'] = None
+    if r_disk[0] in ('raw', 'timeout'):
+        _state['dsession'] = None
+    msess = Session({'__main__': f'from {pkg}.b{k} import f\n\ndef main() -> int:\n\treturn f(1, 2)\n'})
+    r_imp = classify(lambda: pipeline(msess, '__main__'))
+    try:
+        os.remove(fp)
+    except OSError:
+        pass
+    shutil.rmtree(os.path.join(wd, '.cache', 'tranp', pkg), ignore_errors=True)
+    outcomes = []
+    for path, r in (('disk', r_disk), ('imported', r_imp)):
+        outcomes.append(r[0] if r[0] != 'error' else f'error:{r[1]}')
+        rep = {'kind': kind, 'text': text}
+        if r[0] == 'raw':
+            viol.append((['raw-exception', r[1], r[2], path, 'undecodable-file'], f'{path}: {r[1]} escaped from {r[2]}: {r[3]}  file bytes {text.encode("latin-1")[:60]!r}', rep))
+        elif r[0] == 'timeout':
+            viol.append((['no-termination', path], f'{path}: no result within 10 s', rep))
+        elif r[0] == 'error':
+            try:
+                if not str(ErrorRender(r[2])):
+                    viol.append((['render-empty', path], f'{path}: empty rendering for {r[1]}', rep))
+            except BaseException as e:  # noqa
+                viol.append((['render-raises', type(e).__name__, r[1], path], f'{path}: ErrorRender raised {type(e).__name__}: {e} for {r[1]}', rep))
+        elif r[0] == 'ok':
+            viol.append((['undecodable-accepted', path], f'{path}: a file that is not valid UTF-8 was processed without error', rep))
+    return viol, tuple(outcomes), False
+
+
 def worker(batch):
     out = []
     for kind, text in batch:
         _state['n'] = _state.get('n', 0) + 1
-        out.append(judge_text(kind, text, _state['n']))
+        out.append((judge_bytes if kind.startswith('raw-bytes') else judge_text)(kind, text, _state['n']))
     return out
+
+
+BAD_BYTES = [b'\xe9', b'\xff', b'\xc3', b'\xe2\x82', b'\xed\xa0\x80']
+
+
+def byte_files(src: str, every: int):
+    data = src.encode('utf-8')
+    for bad in BAD_BYTES:
+        for off in range(0, len(data) + 1, every):
+            yield f'raw-bytes:{bad!r}', (data[:off] + bad + data[off:]).decode('latin-1')
+    yield 'raw-bytes:utf-16', src.encode('utf-16').decode('latin-1')
 
 
 def cases(ctx):
@@ -304,6 +375,9 @@ def cases(ctx):
             out += emit(kind, text)
     for kind, text in soups(2 if ctx.quick else 3):
         out += emit(kind, text)
+    for name, src in (list(SEEDS.items())[:1] if ctx.quick else SEEDS.items()):
+        for kind, text in byte_files(src, 1):
+            out += emit(kind, text)
     return out
 
 
@@ -327,7 +401,7 @@ def run(ctx):
     return {
         'evaluations': n * 2,
         'distinct_nontrivial': n,
-        'rule': f'seeds {list(SEEDS)}; ill-typed programs {len(ILL_TYPED)}; every single token deviation (delete, duplicate, replace/insert each of {len(TOKEN_ALPHABET) if not ctx.quick else len(TOKEN_ALPHABET[::3])} tokens, layout token removed/added) of all seeds; every truncation and every byte insertion {BYTES!r} at every offset of {"all" if not ctx.quick else "2"} seeds; token soups of length <= {2 if ctx.quick else 3}; texts are distinct; each runs in memory and on disk',
+        'rule': f'seeds {list(SEEDS)}; ill-typed programs {len(ILL_TYPED)}; every single token deviation (delete, duplicate, replace/insert each of {len(TOKEN_ALPHABET) if not ctx.quick else len(TOKEN_ALPHABET[::3])} tokens, layout token removed/added) of all seeds; every truncation and every byte insertion {BYTES!r} at every offset of {"all" if not ctx.quick else "2"} seeds; token soups of length <= {2 if ctx.quick else 3}; texts are distinct; each runs in memory and on disk; every text the grammar accepts is processed a second time on disk against the cache files the first run left (history of length 2); module files that are not valid UTF-8 (each of {BAD_BYTES!r} inserted at every byte offset of {"one seed" if ctx.quick else "all seeds"}, and a UTF-16 file) as target and imported from an in-memory main',
         'samples': [cs[0][1][:80], cs[len(cs) // 2][1][:80], cs[-1][1][:40]],
         'accepted_by_grammar': parsable,
         'outcome_pairs_memory_disk': {f'{a}|{b}': c for (a, b), c in top},
@@ -337,5 +411,5 @@ def run(ctx):
 
 
 def replay(ctx, data):
-    viol, _, _ = judge_text(data['kind'], data['text'], 0)
+    viol, _, _ = (judge_bytes if data['kind'].startswith('raw-bytes') else judge_text)(data['kind'], data['text'], 0)
     ctx.merge(viol)
